@@ -52,8 +52,15 @@ def install(ctx):
 def gen_case(rng, tier, ctx, i):
     base = confgen.gen_config(rng, cid=rng.random() < 0.8)
     items = confgen.ITEMS[:6]
-    if rng.random() < 0.3:
-        base["args"].append(confgen.V(rng.choice(items)))       # a bare top-level item
+    r0 = rng.random()
+    if r0 < 0.08:
+        base = {"k": "Stingy", "id": "cfg", "args": []}          # a configurator that starts without any rule
+    elif r0 < 0.4:
+        it = confgen.V(rng.choice(items))                         # a bare top-level item
+        if rng.random() < 0.4:
+            it["cls"] = "sub"                                     # ... of a subclass of puan.variable
+            it["id"] = rng.choice(["Apple-big", it["id"]])
+        base["args"].append(it)
     cnt = [100]
 
     def idgen():
@@ -66,6 +73,12 @@ def gen_case(rng, tier, ctx, i):
             # collision with an existing top-level id (rule or item)
             tops = [a for a in base["args"] + [x for x in adds if not x.get("_refuse")] if a.get("id") and a["k"] not in ("var",)]
             tl_items = [a for a in base["args"] if a["k"] == "var"]
+            if tl_items and rng.random() < 0.4:
+                rule = confgen.gen_rule(rng, items, idgen)
+                rule["id"] = rng.choice(tl_items)["id"]          # a rule named like an existing top-level item
+                rule["_refuse"] = True
+                adds.append(rule)
+                continue
             if tops and (not tl_items or rng.random() < 0.7):
                 victim = rng.choice(tops)
                 rule = confgen.gen_rule(rng, items, idgen)
